@@ -250,5 +250,5 @@ def cq_ecase(tables_src, elem, vals_obs):
     )
 
 
-def run_ecases(cases, tag="ec"):
-    return eval_codes(["Elem", "Validate", "RunElem"], "run_elem_case", cases, tag=tag, shard=120)
+def run_ecases(cases, tag="ec", shard=120):
+    return eval_codes(["Elem", "Validate", "RunElem"], "run_elem_case", cases, tag=tag, shard=shard)
